@@ -167,6 +167,24 @@ def classify(P, o, cons, adts):
         if fp_pure(fp):
             return "retain with a side-effect-free predicate"
         return None
+    if kind == "for":
+        # for (k, v) in &map { other.insert(k, ..) }: the only effect of the loop is filling a keyed container, whose
+        # content does not depend on the order of insertion (the keys come from a map: they are distinct)
+        fp = set(cons.fingerprint or ())
+        inserts = {x for x in fp if x in ("HashMap::insert", "BTreeMap::insert", "HashSet::insert", "BTreeSet::insert")}
+        if inserts and fp_pure(fp - inserts):
+            # the key inserted is the iterated element's own key (through clone / as_str / to_string only)
+            keyed = True
+            n_ins = 0
+            for bb, t in body.calls():
+                if any((callee_def(t) or "").endswith(x) for x in inserts) and len(t["args"]) >= 2:
+                    n_ins += 1
+                    rs = prov(body, t["args"][1])
+                    if not rs or not all(r.kind == "call" and str(r.name).endswith("::next") for r in rs):
+                        keyed = False
+            if keyed and n_ins:
+                return "the loop only inserts the iterated keys into a keyed container (%s)" % ", ".join(sorted(inserts))
+        return None
     if kind.startswith("call:"):
         meth = cons.detail.split("->")[0]
         if meth in H.ORDER_FREE and fp_pure(cons.fingerprint):
